@@ -114,6 +114,7 @@ func c19Apalache(c *Ctx) error {
 	run := func(module, init string, length int) (string, error) {
 		cmd := exec.Command("timeout", "600", "apalache-mc", "check", "--init="+init, "--inv=IndInv", fmt.Sprintf("--length=%d", length), module+".tla")
 		cmd.Dir = dir
+		cmd.Env = append(os.Environ(), "TMPDIR="+dir) // (the launcher makes a scratch directory with mktemp -t and leaves it behind)
 		out, _ := cmd.CombinedOutput()
 		switch {
 		case strings.Contains(string(out), "EXITCODE: OK"):
